@@ -77,6 +77,8 @@ def one_sinusoid(rec, seedt, tier, fixed=None):
         if rng.random() < 0.02:
             L = int(rng.choice([(1 << 20) + 7, 3 << 19, (1 << 21) + 1]))   # beyond 2^20 samples
         P = float(rng.uniform(40, 200))
+        if rng.random() < 0.15:
+            P = float(rng.choice([40.0, 45.0, 50.0, 60.0, 80.0, 100.0, 120.0, 150.0, 200.0]))   # round requests, range ends
         order = -1 if rng.random() < 0.7 else int(rng.choice([0, 1, 2]))
         K = int(rng.integers(1, 5)) if L < (1 << 20) else 1
         phase = float(rng.uniform(0, 2 * math.pi))
